@@ -23,16 +23,24 @@ def run(prop: str, level: str, *, files: list[str] | None = None, targets: list[
         logging.disable(logging.WARNING)
         warnings.filterwarnings("ignore")
         os.environ.setdefault("TQDM_DISABLE", "1")
+        from vlib.core import CheckerError
+
+        deferred = None
         if files:
             from pyvc.verify import verify_into
 
-            verify_into(ctx, files, targets)
+            try:
+                verify_into(ctx, files, targets)
+            except CheckerError as e:
+                deferred = e  # still run the bounded stand-in: a witness on the real code outranks a checker error
             ctx.assume(*COMMON_ASSUMPTIONS)
         if extra is not None:
             extra(ctx)
         if bounded:
             mod = importlib.import_module(f"bounded.{prop}")
             mod.run(ctx)
+        if deferred is not None and not ctx.failures:
+            raise deferred
         if notes:
             ctx.notes.append(notes)
 
